@@ -81,6 +81,12 @@ def run(ctx, config='rel-all'):
     ctx.floor('R1', len(finger_sites), 9, 'distinct finger store sites (fast path, new_chunk, reset, dealloc, shrink, 2x2 rewinds)')
     check_fast_path_failure_atomicity(ctx, A)
     check_who_may_call(ctx, config)
+    # ---- R9 the property quantifies over grow / shrink / deallocate and the Allocator / Alloc entry points: the block they
+    # describe to the caller (length of the returned slice), the failure atomicity of grow/shrink (a block is never released on a
+    # path that can still return Err) and the copy discipline are the obligations of C12, evaluated here as C01.R9
+    from .. import runner
+    from . import c12
+    c12.run(runner.Sub(ctx, 'R9', 'C12'), config)
 
 
 def check_finger_store(ctx, entry, I, res, e, fn, o, where, axioms, rules=None):
